@@ -1062,13 +1062,13 @@ func (g *gen) blockStmt() {
 	if g.has(FeatMultiValue) && g.chance(20, "blockparams") {
 		np := g.rng(1, 3, "bnp")
 		for i := 0; i < np; i++ {
-			p = append(p, numTypes[g.intn(len(numTypes), "bpt")])
+			p = append(p, g.valType(false))
 		}
 	}
 	if g.chance(30, "blockres") {
-		r = append(r, numTypes[g.intn(len(numTypes), "brt")])
+		r = append(r, g.valType(false))
 		if g.has(FeatMultiValue) && g.chance(30, "blockres2") {
-			r = append(r, numTypes[g.intn(len(numTypes), "brt2")])
+			r = append(r, g.valType(false))
 		}
 	}
 	for _, t := range p {
@@ -1175,14 +1175,23 @@ func (g *gen) loopStmt() {
 	g.i32const(int32(iters))
 	g.localSet(cnt)
 	var p []byte
-	if g.has(FeatMultiValue) && g.chance(15, "loopparams") {
-		p = []byte{numTypes[g.intn(len(numTypes), "lpt")]}
-		g.expr(p[0], d-1)
+	var pl []uint32
+	if g.has(FeatMultiValue) && g.chance(25, "loopparams") {
+		// loop parameters of any value type (v128 takes two interpreter stack slots, references
+		// are opaque): the values travel on the operand stack across every back-edge
+		np := g.rng(1, 3, "lnp")
+		for i := 0; i < np; i++ {
+			t := g.valType(false)
+			p = append(p, t)
+			pl = append(pl, g.privateLocal(t))
+			g.expr(t, d-1)
+		}
+		g.stat("loop-params")
 	}
 	g.open("loop", 0x03, p, p, true)
 	g.burnFuel()
-	if len(p) == 1 {
-		g.localSet(g.scratch(p[0]))
+	for i := len(p) - 1; i >= 0; i-- {
+		g.localSet(pl[i])
 	}
 	term := g.stmts(g.cfg.MaxStmts - 1)
 	if !term {
@@ -1193,20 +1202,29 @@ func (g *gen) loopStmt() {
 		g.localTee(cnt)
 		g.i32const(0)
 		g.op1("i32.gt_s", 0x4a)
-		g.open("if", 0x04, nil, nil, false)
-		if len(p) == 1 {
-			g.localGet(g.scratch(p[0]))
-		}
-		g.f.emit("br", wasmenc.NewB().Br(1).Bytes(), 1)
-		g.close()
-		if len(p) == 1 {
-			g.localGet(g.scratch(p[0]))
+		if len(p) > 0 && g.chance(50, "loopbrif") {
+			// br_if back-edge carrying the parameters: [p..., cond] -> [p...]
+			ct := g.privateLocal(I32)
+			g.localSet(ct)
+			for i := range p {
+				g.localGet(pl[i])
+			}
+			g.localGet(ct)
+			g.f.emit("br_if", wasmenc.NewB().BrIf(0).Bytes(), 0)
+		} else {
+			g.open("if", 0x04, nil, nil, false)
+			for i := range p {
+				g.localGet(pl[i])
+			}
+			g.f.emit("br", wasmenc.NewB().Br(1).Bytes(), 1)
+			g.close()
+			for i := range p {
+				g.localGet(pl[i])
+			}
 		}
 	}
 	g.close()
-	if len(p) == 1 {
-		g.op1("drop", 0x1a)
-	}
+	g.consumeAll(p)
 	g.stat("loop")
 }
 
@@ -1745,6 +1763,19 @@ func (g *gen) tableOpDepth(op *Op, depth int) {
 	if op.Prefix == 0 && len(op.Params) == 2 && len(op.Results) == 1 && op.Results[0] == I32 && (op.Params[0] == I32 || op.Params[0] == I64) && op.Params[0] == op.Params[1] && g.chance(15, "cmpzero") {
 		zeroSide = g.intn(2, "zeroside")
 	}
+	// "operands survive": every operand is also kept in a private local (local.tee, so the
+	// instruction reads the very value the local holds) and is folded into the sink AFTER the
+	// instruction: an instruction selection that overwrites an operand's register is visible.
+	survive := g.sinkIdx >= 0 && len(op.Results) == 1 && len(op.Params) > 0 && g.chance(12, "survive")
+	var kept []uint32
+	var keptT []byte
+	keep := func(p byte) {
+		if survive {
+			l := g.privateLocal(p)
+			g.localTee(l)
+			kept, keptT = append(kept, l), append(keptT, p)
+		}
+	}
 	for i, p := range op.Params {
 		if i == 0 && (op.Imm == ImmMem || op.Imm == ImmMemLane || op.Imm == ImmAtomic) {
 			if op.Imm == ImmAtomic {
@@ -1756,6 +1787,7 @@ func (g *gen) tableOpDepth(op *Op, depth int) {
 		}
 		if op.Trap && i == len(op.Params)-1 && g.chance(85, "safeop") {
 			g.safeOperand(op, p, depth)
+			keep(p)
 			continue
 		}
 		if zeroSide == i {
@@ -1768,6 +1800,19 @@ func (g *gen) tableOpDepth(op *Op, depth int) {
 			continue
 		}
 		g.expr(p, depth)
+		keep(p)
+	}
+	if len(kept) > 0 {
+		g.stat("operands-survive")
+		defer func() {
+			r := g.privateLocal(op.Results[0])
+			g.localSet(r)
+			for i, l := range kept {
+				g.localGet(l)
+				g.consume(keptT[i])
+			}
+			g.localGet(r)
+		}()
 	}
 	b := wasmenc.NewB()
 	if op.Prefix == 0 {
